@@ -36,9 +36,9 @@ UNDECIDED_MSGS = ('rlimit', 'resource limit', 'timed out', 'timeout', 'solver')
 IGNORE_MSGS = ('aborting due to',)
 
 
-def run_verus(crate_dir, modules, rlimit=50, seed=0, extra=(), timeout=3000, log_path=None):
+def run_verus(crate_dir, modules, rlimit=50, seed=0, extra=(), timeout=3000, log_path=None, multiple_errors=500):
     cmd = ['verus', '--crate-type=lib', os.path.join(crate_dir, 'src', 'lib.rs'),
-           '--multiple-errors', '500', '--error-format=json', '--output-json', '--time', '--rlimit', str(rlimit)]
+           '--multiple-errors', str(multiple_errors), '--error-format=json', '--output-json', '--time', '--rlimit', str(rlimit)]
     for m in modules:
         cmd += ['--verify-module', m]
     if seed:
